@@ -721,11 +721,12 @@ func (join *invertibleTypeJoin) Next() (bool, error) {
 			join.docsToYield = append(join.docsToYield, secondaryDoc)
 		}
 
-		// If we reach this line and there are no docs to yield, it likely means that a child
-		// document was found but not a parent - this can happen when inverting the join, for
-		// example when working with a secondary index.
+		// If we reach this line and there are no docs to yield, it means that a secondary
+		// document was found that no primary document references - this can happen when
+		// inverting the join, for example when working with a secondary index. The remaining
+		// documents of the first side still have to be visited.
 		if len(join.docsToYield) == 0 {
-			return false, nil
+			return join.Next()
 		}
 	}
 
